@@ -1,5 +1,6 @@
 (* Eco/Pypi/Version.v — model of pkg/ecosystem/pypi/version.go (definitions only). *)
 From Verif.Base Require Import Bytes GoNum.
+From Verif.Gen Require Tables.
 From Verif.Eco Require Import VLayer.
 Local Open Scope N_scope.
 
@@ -124,8 +125,9 @@ Definition parse_core (t : bytes) : option core :=
   parse_tail ep rel s2.
 
 (* normalizePrereleaseType: the switch on strings.ToLower(preType) *)
+(* generated from the Go source on every run (tools/gen -> Gen/Tables.v) *)
 Definition normalizePrereleaseType_table : list (bytes * Z) :=
-  [($"a", 1%Z); ($"alpha", 1%Z); ($"b", 2%Z); ($"beta", 2%Z); ($"c", 3%Z); ($"rc", 3%Z)].
+  Eval cbv delta [Verif.Gen.Tables.pypi_normalizePrereleaseType] in Verif.Gen.Tables.pypi_normalizePrereleaseType.
 Definition pre_type (m : bytes) : Z :=
   match lookup (to_lower m) normalizePrereleaseType_table with
   | Some k => k
